@@ -61,6 +61,11 @@ class Checker:
         self.db = canboat.db()
         self.dec = NMEA2000Decoder()
         self.consts = canboat.lib_consts()
+        # another decoder of the process, built the same way, is reconfigured in place by its owner (units switched at runtime)
+        from nmea2000.consts import PhysicalQuantities as _PQ
+        self.other = NMEA2000Decoder()
+        if isinstance(getattr(self.other, "preferred_units", None), dict):
+            self.other.preferred_units.update({_PQ.TEMPERATURE: "c", _PQ.ANGLE: "deg", _PQ.SPEED: "kts", _PQ.PRESSURE: "bar"})
         # the decoder is not fresh: it has received a message of every fast-packet definition frame by frame (from the source the
         # checked payloads come from) and one through the Actisense entry point before the first payload is checked
         from .. import wire
